@@ -158,6 +158,26 @@ pub fn op_has_nested_string_list(o: &hir::Operation) -> bool {
     o.parameters.iter().any(|p| matches!(&p.ty, mir::Ty::Array(inner) if matches!(**inner, mir::Ty::Array(_)) && inner.is_reference_type()))
 }
 
+/// does an example value of this type contain a struct literal with a required field whose Rust type is forced to
+/// `Option<..>` (integer carried as string, zero-as-absent integer, date carried as integer)?
+pub fn reaches_forced_option_field(h: &hir::HirSpec, t: &mir::Ty, depth: usize) -> bool {
+    use mir::Ty;
+    if depth > 8 { return false; }
+    match t {
+        Ty::Array(i) | Ty::HashMap(i) => matches!(t, Ty::Array(_)) && reaches_forced_option_field(h, i, depth + 1),
+        Ty::Model(n) => match h.schemas.get(n) {
+            Some(hir::Record::Struct(s)) => s.fields.values().any(|f| {
+                let forced = matches!(f.ty, Ty::Integer { ser: mir::IntegerSerialization::String } | Ty::Integer { ser: mir::IntegerSerialization::NullAsZero } | Ty::Date { ser: mir::DateSerialization::Integer });
+                (forced && !f.optional) || reaches_forced_option_field(h, &f.ty, depth + 1)
+            }),
+            Some(hir::Record::NewType(nt)) => nt.fields.iter().any(|f| reaches_forced_option_field(h, &f.ty, depth + 1)),
+            Some(hir::Record::TypeAlias(_, f)) => reaches_forced_option_field(h, &f.ty, depth + 1),
+            _ => false,
+        },
+        _ => false,
+    }
+}
+
 pub fn op_has_duplicate_idents(o: &hir::Operation) -> bool {
     use mir_rust::ToRustIdent;
     let mut ids: Vec<String> = o.parameters.iter().map(|p| p.name.to_rust_ident().0).collect();
@@ -282,7 +302,11 @@ pub fn run_k16(tier: &str, seed: u64, out: &str) {
                 use mir_rust::ToRustIdent;
                 let op = em.hir.operations.iter().find(|o| mir_rust::sanitize_filename(&o.file_name()) == *e);
                 let shadows = op.map(|o| o.parameters.iter().any(|p| !p.optional && p.name.to_rust_ident().0 == "client")).unwrap_or(false);
-                rep.oracle_fail("exampleDoesNotCompile", if shadows { vec!["requiredInputNamedClient".to_string()] } else { vec![] }, &case_text(c), &format!("examples/{e}.rs: {}", errs.first().cloned().unwrap_or_default()));
+                let mut trig = vec![];
+                if shadows { trig.push("requiredInputNamedClient".to_string()); }
+                let first = errs.first().cloned().unwrap_or_default();
+                if first.contains("expected `Option<") && op.map(|o| o.parameters.iter().any(|p| reaches_forced_option_field(&em.hir, &p.ty, 0))).unwrap_or(false) { trig.push("forcedOptionFieldInExample".to_string()); }
+                rep.oracle_fail("exampleDoesNotCompile", trig, &case_text(c), &format!("examples/{e}.rs: {first}"));
             }
             for e in &r.built_examples { if examples.contains(e) { jobs.push((i, e.clone())); } }
             for e in &examples { if !r.built_examples.contains(e) && !r.example_errors.contains_key(e) { rep.oracle_fail("exampleNotBuilt", vec![], &case_text(c), e); } }
@@ -389,7 +413,8 @@ fn instance(doc: &Value, schema: &Value, mode: Mode, stack: &mut Vec<String>, de
     if let Some(n) = &name { if stack.contains(n) || depth > 6 { return None; } stack.push(n.clone()); }
     let out = (|| -> Option<Value> {
         if s.is_null() { return None; }
-        if mode == Mode::Nulls && s["nullable"] == json!(true) { return Some(Value::Null); }
+        // a nullable schema makes the *positions* that use it optional; the instance of the schema itself is its non-null form
+        if mode == Mode::Nulls && depth > 0 && s["nullable"] == json!(true) { return Some(Value::Null); }
         if let Some(all) = s["allOf"].as_array() {
             let mut merged = serde_json::Map::new();
             let mut single: Option<Value> = None;
@@ -455,6 +480,8 @@ fn adapter_type_in_container(doc: &Value, s: &Value, depth: usize) -> bool {
     if depth > 6 { return false; }
     let (s, _) = resolve(doc, s);
     let adapted = |x: &Value| { let (x, _) = resolve(doc, x); (x["type"] == serde_json::json!("string") && x["format"] == serde_json::json!("integer")) || (x["type"] == serde_json::json!("integer") && x["x-format"] == serde_json::json!("date")) };
+    // the component itself is such a type (kept as a newtype or alias, where no field attribute can carry the adapter)
+    if depth == 0 && adapted(s) { return true; }
     for key in ["items", "additionalProperties"] {
         if let Some(e) = s.get(key) { if e.is_object() && (adapted(e) || adapter_type_in_container(doc, e, depth + 1)) { return true; } }
     }
